@@ -133,6 +133,20 @@ def r2_prefix_scan(ctx) -> None:
             loc = f"{f.module.relpath}:{lp.lineno}"
             src = unparse(f.node)
             guarded = other and (f"len({a}) == len({other[0]})" in src or f"len({a}) != len({other[0]})" in src or "zip(" in it or ".exploded" in src)
+            if not guarded:
+                # or: the "no difference found" outcome is told apart from the single-address network by the prefix length —
+                # every pattern appended without the wildcard after the scan is guarded by a prefix-length test
+                plain = [c for c in walk_no_nested(f.node) if isinstance(c, ast.Call) and call_name(c) == "patterns.append"
+                         and c.lineno > lp.end_lineno and "wildcard" not in unparse(c)
+                         and any(isinstance(anc, ast.For) and lp in ast.walk(anc) for anc in prog.ancestors(c))]
+                def _pl_guard(c):
+                    for t, pol in atomic_guards(guards_at(prog, f, c)):
+                        tt = t.replace(" ", "")
+                        if "prefixlen" in tt and ((("<128" in tt or "!=128" in tt) and not pol) or (("==128" in tt or ">=128" in tt) and pol)):
+                            return True
+                    return False
+                if plain and all(_pl_guard(c) for c in plain):
+                    guarded = True
             if guarded:
                 r.ok("C18.R2", EXP, f"scan over {a}/{other[0] if other else '?'} guards the lengths", loc)
             else:
